@@ -286,7 +286,7 @@ func runC13(r *Report, tier string) {
 		}
 	}
 	predTrue := func(ep *entryPath, class string) bool {
-		for _, c := range ep.p.conds {
+		for _, c := range ep.conds {
 			if c.Val && c.Pred.Op == "call" && isClass[c.Pred.S] == class && len(c.Pred.Args) == 1 && c.Pred.Args[0].eq(V) {
 				return true
 			}
@@ -294,11 +294,11 @@ func runC13(r *Report, tier string) {
 		return false
 	}
 	typeIs := func(ep *entryPath, t string) bool {
-		return ep.p.has(Fact{&Term{Op: "res", S: "1", Args: []*Term{{Op: "typeassert", S: t + ",ok", Args: []*Term{V}}}}, true})
+		return ep.has(Fact{&Term{Op: "res", S: "1", Args: []*Term{{Op: "typeassert", S: t + ",ok", Args: []*Term{V}}}}, true})
 	}
-	flag := func(ep *entryPath, v bool) bool { return ep.p.has(Fact{T("param", "1"), v}) }
+	flag := func(ep *entryPath, v bool) bool { return ep.has(Fact{T("param", "1"), v}) }
 	absent := func(ep *entryPath, k int64) bool {
-		for _, c := range ep.p.conds {
+		for _, c := range ep.conds {
 			if c.Val {
 				continue
 			}
@@ -315,7 +315,7 @@ func runC13(r *Report, tier string) {
 	tstrRules := func(ep *entryPath) string {
 		S := &Term{Op: "typeassert", S: "string", Args: []*Term{V}}
 		fs := factSet{}
-		for _, c := range ep.p.conds {
+		for _, c := range ep.conds {
 			fs.add(c)
 		}
 		miss, _ := fs.firstMissing([]factPat{
@@ -354,7 +354,7 @@ func runC13(r *Report, tier string) {
 			return "accepted in the protected bucket"
 		}
 		okv := false
-		for _, c := range ep.p.conds {
+		for _, c := range ep.conds {
 			if c.Val && c.Pred.Op == "call" && len(c.Pred.Args) == 1 && c.Pred.Args[0].eq(V) {
 				if f := P.calleeOfTerm(c.Pred); f != nil && csGood[f] {
 					okv = true
@@ -386,7 +386,7 @@ func runC13(r *Report, tier string) {
 			if !flag(ep, true) {
 				return "crit accepted in the unprotected bucket"
 			}
-			for _, c := range ep.p.conds {
+			for _, c := range ep.conds {
 				if c.Val && c.Pred.Op == "binop" && c.Pred.S == "==" {
 					for i := 0; i < 2; i++ {
 						call := c.Pred.Args[i]
@@ -445,7 +445,7 @@ func runC13(r *Report, tier string) {
 		}
 		o.check(why == "", fmt.Sprintf("%d accepting paths, all satisfy the cell", len(ps)), why)
 	}
-	r.floor("R13.1", nAcc, 15, "accepting per-entry paths of the validator")
+	r.floorSoft("R13.1", nAcc, 15, "accepting per-entry paths of the validator")
 	checkValidatorUniqueness(r, "R13.3")
 	// R13.2 encoders + decoders
 	checkBucketEncoders(r, "R13.2")
@@ -636,7 +636,7 @@ func checkValidatorUniqueness(r *Report, rule string) {
 				continue
 			}
 			okNorm, okDup := false, false
-			for _, c := range ep.p.conds {
+			for _, c := range ep.conds {
 				if c.Val && c.Pred.Op == "res" && c.Pred.S == "1" && c.Pred.Args[0].Op == "call" && c.Pred.Args[0].S == shortFn(norm) {
 					okNorm = true
 				}
